@@ -234,6 +234,8 @@ class ProxyProtocolV2(object):
         command = cls.__commands.get(data[12] & 0x0f)
         assert command is not None, 'Invalid proxy protocol command'
         family = cls.__families.get(data[13] & 0xf0)
+        assert family is not None or data[13] & 0xf0 == 0, \
+            'Invalid proxy protocol address family'
         protocol = cls.__protocols.get(data[13] & 0x0f)
         assert protocol is not None or data[13] & 0x0f == 0, \
             'Invalid proxy protocol transport protocol'
